@@ -59,6 +59,97 @@ func init() {
 			Old: "	if a.bucketsToSend == nil {\n		// We are in shutdown, recentBuckets stopped moving.", New: "	if a.bucketsToSend == nil && args.IsSetSpare() {\n		// We are in shutdown, recentBuckets stopped moving."})
 }
 
+func init() {
+	Extend("C03", runC03Extra,
+		Mutant{Name: "seed-C03a-resize-stops-at-old-size", File: "internal/data_model/ch_unique.go", Rule: "C03-R5",
+			Old: "	for i := 0; i < oldSize || ch.buf[i] != 0; i++ {", New: "	for i := 0; i < oldSize; i++ {"},
+		Mutant{Name: "seed-C03b-string-length-in-one-byte", File: "internal/aggregator/aggregator_insert.go", Rule: "C03-R6", Occurrence: 1,
+			Old: "		res = rowbinary.AppendString(res, S)\n", New: "		res = append(res, byte(len(S)))\n		res = append(res, S...)\n"})
+	Extend("C06", runC06Extra,
+		Mutant{Name: "seed-C06b-fair-key-read-at-loop-index", File: "internal/data_model/sampling.go", Rule: "C06-R5",
+			Old: "					h.items[i].fairKey[j] = h.items[i].Item.Key.Tags[x]", New: "					h.items[i].fairKey[j] = h.items[i].Item.Key.Tags[j]"})
+}
+
+// C03-R5: the sketch's resize relocation loop also walks the collision tail after the old half.
+// C03-R6: no length prefix of the insert body is narrowed to one byte.
+func runC03Extra(c *core.Check) {
+	c.Decides += " R5 the unique sketch's resize keeps relocating past the old size while cells are occupied (an element that wrapped around the end of the old table must be moved, otherwise a later merge inserts the same hash twice and exact-mode counts are off); R6 no length in the insert-body encoders is narrowed to a single byte (RowBinary lengths are varints; tag values may be 128 bytes long)."
+	c.Rule("C03-R5", "K1 loop exit", 1, "the relocation loop of ChUnique.resize exits only under !(i < oldSize) && buf[i] == 0")
+	if fn := need(c, "C03-R5", "internal/data_model.(*ChUnique).resize"); fn != nil {
+		n := 0
+		for _, r := range core.Returns(fn) {
+			if len(r.Block().Preds) == 0 && r.Block().Index != 0 {
+				continue
+			}
+			n++
+			ok := core.Holds(r.Block(), core.T("(*.buf[phi(*)] == 0)")) && core.Holds(r.Block(), core.F("(phi(*) < *)"))
+			c.Require(ok, "C03-R5", fmt.Sprintf("internal/data_model.(*ChUnique).resize/relocation-loop-exit#%d", n), r.Pos(), "loop leaves only at an empty cell beyond the old size",
+				"the relocation loop of resize is left without `buf[i] == 0` (facts at exit: "+core.FactsString(r.Block())+"): elements of a collision chain that wrapped around the end of the old table stay misplaced, and the same hash is inserted again by a later merge")
+		}
+		if n == 0 {
+			c.Undecided("C03-R5", "internal/data_model.(*ChUnique).resize/relocation-loop-exit", fn.Pos(), "no return found")
+		}
+	}
+	c.Rule("C03-R6", "K7 forbidden narrowing", 1, "in the aggregator's insert encoders no value appended to the body is uint8(len(x))")
+	n := 0
+	for _, fn := range c.Prog.FuncsIn("internal/aggregator") {
+		pos := c.Prog.Fset.Position(fn.Pos())
+		if !strings.HasSuffix(pos.Filename, "aggregator_insert.go") {
+			continue
+		}
+		n++
+		for _, b := range fn.Blocks {
+			for _, in := range b.Instrs {
+				cv, ok := in.(*ssa.Convert)
+				if !ok {
+					continue
+				}
+				bt, isB := cv.Type().Underlying().(*types.Basic)
+				if !isB || bt.Kind() != types.Uint8 {
+					continue
+				}
+				if call, isCall := cv.X.(*ssa.Call); isCall && core.CalleeName(&call.Call) == "builtin len" {
+					c.Fail("C03-R6", core.FuncName(fn)+"/byte(len)", cv.Pos(), "a length is narrowed to one byte in the insert encoder ("+core.Expr(cv)+"): RowBinary string lengths are varints, a 128-byte tag value is written as 0x80 and the rest of the body is mis-framed")
+				}
+			}
+		}
+	}
+	c.Require(n > 0, "C03-R6", "internal/aggregator/aggregator_insert.go", 0, fmt.Sprintf("%d encoder functions scanned, no one-byte length prefix", n), "no function of aggregator_insert.go found")
+}
+
+// C06-R5: the fair key is read at the configured tag index.
+func runC06Extra(c *core.Check) {
+	c.Decides += " R5 each component of a row's fair key is the tag at the index configured in the metric's FairKeyIndex (not at the position in that list), so the fair-key level partitions rows by the configured tag."
+	c.Rule("C06-R5", "K7 provenance", 1, "every store into SamplingMultiItemPair.fairKey[j] takes Key.Tags[x] with x loaded from FairKeyIndex")
+	n := 0
+	for _, fn := range c.Prog.FuncsIn("internal/data_model") {
+		for _, b := range fn.Blocks {
+			for _, in := range b.Instrs {
+				st, ok := in.(*ssa.Store)
+				if !ok {
+					continue
+				}
+				ia, isIA := st.Addr.(*ssa.IndexAddr)
+				if !isIA || !core.IsField(ia.X, "internal/data_model.SamplingMultiItemPair", "fairKey") {
+					continue
+				}
+				n++
+				good := false
+				if ld, isLd := st.Val.(*ssa.UnOp); isLd {
+					if src, isSrc := ld.X.(*ssa.IndexAddr); isSrc && strings.HasSuffix(core.Expr(src.X), ".Key.Tags") {
+						good = strings.Contains(core.Expr(src.Index), ".FairKeyIndex[")
+					}
+				}
+				c.Require(good, "C06-R5", fmt.Sprintf("%s/store:fairKey#%d", core.FuncName(fn), n), st.Pos(), "fair key component read at the configured tag index",
+					"a fair-key component is "+core.Expr(st.Val)+", not Key.Tags[FairKeyIndex[j]]: rows are partitioned by the wrong tag, so a small fair key is sampled together with its flooding neighbour")
+			}
+		}
+	}
+	if n == 0 {
+		c.Undecided("C06-R5", "internal/data_model/fairKey", 0, "no store into fairKey found")
+	}
+}
+
 func isZeroReslice(v ssa.Value) bool {
 	sl, ok := v.(*ssa.Slice)
 	if !ok || sl.Low != nil || sl.High == nil {
